@@ -189,6 +189,9 @@ func c16Stops(first, tracks string, r *core.Rand) []*gtfsrt.TripUpdate_StopTimeU
 
 // c16PreVehicles are the vehicle descriptors an NYCT entity may already carry on the wire. For an assigned trip the
 // statement fixes the linked vehicle's id (the train id) whatever was there before; label and plate are not asserted.
+// c16TrainIDs are NYCT train ids; the vehicle id of an assigned trip is the train id verbatim, whitespace and case included.
+var c16TrainIDs = []string{"TRAIN 7", "TRAIN 7", "06 0123+ PEL/BBR", " TRAIN 7", "TRAIN 7 ", "train 7\t", " ", "Ünï 7"}
+
 var c16PreVehicles = []string{"none", "none", "other-id", "same-id", "label-only", "plate-only", "id+label", "empty-descriptor"}
 
 func c16PreVehicle(kind, train, other string) *gtfsrt.VehicleDescriptor {
@@ -335,9 +338,10 @@ func c16Table(c *core.Ctx, i int) {
 	}
 	for oi, opts := range c16OptCombos {
 		d := &gtfsrt.TripDescriptor{TripId: rgen.S(id), RouteId: rgen.S("A"), StartTime: rgen.S(wireStart), StartDate: rgen.S("20231114")}
-		c16SetNyct(d, cell.assigned, cell.dir, "TRAIN 7")
+		train := c16TrainIDs[c.R.Intn(len(c16TrainIDs))]
+		c16SetNyct(d, cell.assigned, cell.dir, train)
 		pre := c16PreVehicles[c.R.Intn(len(c16PreVehicles))]
-		tu := &gtfsrt.TripUpdate{Trip: d, StopTimeUpdate: c16Stops(cell.first, cell.tracks, c.R), Vehicle: c16PreVehicle(pre, "TRAIN 7", "car-4471")}
+		tu := &gtfsrt.TripUpdate{Trip: d, StopTimeUpdate: c16Stops(cell.first, cell.tracks, c.R), Vehicle: c16PreVehicle(pre, train, "car-4471")}
 		m := &gtfsrt.FeedMessage{Header: &gtfsrt.FeedHeader{GtfsRealtimeVersion: rgen.S("1.0"), Timestamp: rgen.U64(c16FeedTs)},
 			Entity: []*gtfsrt.FeedEntity{{Id: rgen.S("x"), TripUpdate: tu}}}
 		rt, err := gtfs.ParseRealtime(rgen.Marshal(m), &gtfs.ParseRealtimeOptions{Extension: nycttrips.Extension(opts)})
@@ -383,7 +387,7 @@ func c16Table(c *core.Ctx, i int) {
 			c.Violationf("C16|start-time|"+cell.id, detail(), "start time %v (has=%v), want %v", t.ID.StartTime, t.ID.HasStartTime, wantStart)
 		}
 		if cell.assigned == "true" {
-			if t.Vehicle == nil || t.Vehicle.ID == nil || t.Vehicle.ID.ID != "TRAIN 7" {
+			if t.Vehicle == nil || t.Vehicle.ID == nil || t.Vehicle.ID.ID != train {
 				c.Violationf("C16|assigned-vehicle", detail(), "assigned trip is not linked to a vehicle whose id is the train id")
 			} else if len(rt.Vehicles) != 1 || rt.Vehicles[0].Trip == nil || rt.Vehicles[0].Trip.ID.ID != id {
 				c.Violationf("C16|assigned-vehicle-backlink", detail(), "the train's vehicle does not link back to the trip")
@@ -420,9 +424,10 @@ func c16VehiclePositions(c *core.Ctx) {
 		assigned := core.Pick(r, c16Assigned)
 		dir := core.Pick(r, c16Dirs)
 		d := &gtfsrt.TripDescriptor{TripId: rgen.S(id), RouteId: rgen.S("A"), StartDate: rgen.S("20231114")}
-		c16SetNyct(d, assigned, dir, "TRAIN 9")
+		train := core.Pick(r, c16TrainIDs)
+		c16SetNyct(d, assigned, dir, train)
 		pre := core.Pick(r, c16PreVehicles)
-		vp := &gtfsrt.VehiclePosition{Trip: d, StopId: rgen.S("A20N"), Timestamp: rgen.U64(c16FeedTs), Vehicle: c16PreVehicle(pre, "TRAIN 9", "car-77")}
+		vp := &gtfsrt.VehiclePosition{Trip: d, StopId: rgen.S("A20N"), Timestamp: rgen.U64(c16FeedTs), Vehicle: c16PreVehicle(pre, train, "car-77")}
 		m := &gtfsrt.FeedMessage{Header: &gtfsrt.FeedHeader{GtfsRealtimeVersion: rgen.S("1.0"), Timestamp: rgen.U64(c16FeedTs)},
 			Entity: []*gtfsrt.FeedEntity{{Id: rgen.S("v"), Vehicle: vp}}}
 		opts := core.Pick(r, c16OptCombos)
@@ -445,7 +450,7 @@ func c16VehiclePositions(c *core.Ctx) {
 			c.Violationf("C16|vp-direction", detail(), "%s gives %v", dir, t.ID.DirectionID)
 		}
 		if assigned == "true" {
-			if rt.Vehicles[0].ID == nil || rt.Vehicles[0].ID.ID != "TRAIN 9" || t.Vehicle == nil || t.Vehicle.ID == nil || t.Vehicle.ID.ID != "TRAIN 9" {
+			if rt.Vehicles[0].ID == nil || rt.Vehicles[0].ID.ID != train || t.Vehicle == nil || t.Vehicle.ID == nil || t.Vehicle.ID.ID != train {
 				c.Violationf("C16|vp-assigned-vehicle", detail(), "assigned trip of a vehicle position is not linked to the train")
 			}
 		}
@@ -544,6 +549,7 @@ func c16Mixed(c *core.Ctx) {
 		cell   c16Cell
 		origin int
 		route  string
+		train  string
 	}
 	var nyct []nexp
 	for k := 0; k < nN; k++ {
@@ -552,17 +558,18 @@ func c16Mixed(c *core.Ctx) {
 		route := core.Pick(r, []string{"M", "A", "6"})
 		id := fmt.Sprintf("%06d_%s..%s%02d", n, route, core.Pick(r, []string{"N", "S"}), k)
 		d := &gtfsrt.TripDescriptor{TripId: rgen.S(id), RouteId: rgen.S(route), StartDate: rgen.S("20231114")}
-		c16SetNyct(d, cell.assigned, cell.dir, fmt.Sprintf("TRAIN-%d", k))
+		train := fmt.Sprintf("TRAIN-%d", k) + core.Pick(r, []string{"", "", " ", "\t", " x"})
+		c16SetNyct(d, cell.assigned, cell.dir, train)
 		tu := &gtfsrt.TripUpdate{Trip: d, StopTimeUpdate: c16Stops(cell.first, cell.tracks, r)}
 		if cell.assigned == "true" {
 			// an assigned trip may already carry a vehicle descriptor on the wire; the train id replaces its id
-			tu.Vehicle = c16PreVehicle(core.Pick(r, c16PreVehicles), fmt.Sprintf("TRAIN-%d", k), fmt.Sprintf("nyct-wire-car-%d", k))
+			tu.Vehicle = c16PreVehicle(core.Pick(r, c16PreVehicles), train, fmt.Sprintf("nyct-wire-car-%d", k))
 		}
 		pos := r.Intn(len(mixed.Entity) + 1)
 		mixed.Entity = append(mixed.Entity, nil)
 		copy(mixed.Entity[pos+1:], mixed.Entity[pos:])
 		mixed.Entity[pos] = &gtfsrt.FeedEntity{Id: rgen.S(fmt.Sprintf("nyct-%d", k)), TripUpdate: tu}
-		nyct = append(nyct, nexp{id: id, cell: cell, origin: n, route: route})
+		nyct = append(nyct, nexp{id: id, cell: cell, origin: n, route: route, train: train})
 	}
 	plainBytes := rgen.Marshal(plain)
 	mixedBytes := rgen.Marshal(mixed)
@@ -704,7 +711,7 @@ func c16Mixed(c *core.Ctx) {
 			if ne.cell.dir == "NORTH" && t.ID.DirectionID != gtfs.DirectionID_False || ne.cell.dir == "SOUTH" && t.ID.DirectionID != gtfs.DirectionID_True {
 				c.Violationf("C16|mixed-direction", md(), "NYCT trip %s: %s gives %v", ne.id, ne.cell.dir, t.ID.DirectionID)
 			}
-			if ne.cell.assigned == "true" && (t.Vehicle == nil || t.Vehicle.ID == nil || t.Vehicle.ID.ID != "TRAIN-"+ne.id[len(ne.id)-1:]) {
+			if ne.cell.assigned == "true" && (t.Vehicle == nil || t.Vehicle.ID == nil || t.Vehicle.ID.ID != ne.train) {
 				c.Violationf("C16|mixed-assigned-vehicle", md(), "NYCT trip %s is assigned but not linked to its train", ne.id)
 			}
 			for k := range t.StopTimeUpdates {
